@@ -97,6 +97,15 @@ func GenBedFile(t *rapid.T, maxRecs int) BedFile {
 			}
 		}
 		nb := rapid.IntRange(1, 4).Draw(t, "nblocks")
+		if f.N == 12 && rapid.IntRange(0, 19).Draw(t, "many-blocks") == 0 {
+			// a line longer than any 4096-byte line buffer
+			nb = rapid.IntRange(700, 1500).Draw(t, "nblocks-many")
+			for j := 0; j < nb; j++ {
+				r.BlockSizes = append(r.BlockSizes, 10+j%7)
+				r.BlockStarts = append(r.BlockStarts, j*20)
+			}
+			nb = 0
+		}
 		for j := 0; j < nb; j++ {
 			r.BlockSizes = append(r.BlockSizes, genInt(t, "block-size"))
 			r.BlockStarts = append(r.BlockStarts, genInt(t, "block-start"))
@@ -460,6 +469,12 @@ func GenGffFile(t *rapid.T, maxItems int) GffFile {
 			}
 			if rapid.IntRange(0, 2).Draw(t, "has-comments") == 0 {
 				it.Comments = genText(t, "comments", 1, 15, false)
+			}
+			if rapid.IntRange(0, 29).Draw(t, "long-line") == 0 {
+				// a feature line longer than any 4096-byte line buffer
+				unit := genText(t, "long-unit", 3, 8, false) + " "
+				n := rapid.SampledFrom([]int{4090, 4096, 5000, 9000}).Draw(t, "long-line-len")
+				it.Comments = strings.Repeat(unit, n/len(unit)+1)[:n-1] + "x"
 			}
 		}
 		f.Items = append(f.Items, it)
